@@ -382,7 +382,7 @@ func genUE(r *kernel.Rand, o GenOpts, ord int) scn.UEParams {
 		p.AccOpt = mask(15)
 		p.TransOpt = mask(4)
 		_ = r.Intn(16) + r.Intn(32) + r.Intn(32) + r.Intn(1<<15) + r.Intn(16) // keep the other draws of this stream where they were
-		p.SetupOpt = r.Intn(2) << 1 // UE-AMBR after the list
+		p.SetupOpt = r.Intn(2) << 1                                           // UE-AMBR after the list
 		if o.TopLevelOpts && r.Chance(1, 4) {
 			p.SetupOpt |= 1 // RANPagingPriority before the list
 		}
